@@ -49,9 +49,21 @@ def main(tier):
         if g is None or gk in stray:
             continue
         ls = {c[2] for c in casts if c[0] == gk}
+        ncast = len(ls)
+        # plain copies of an address into another local carry the address along
+        grown = True
+        while grown:
+            grown = False
+            for bi, si, s in prog.stmts(g):
+                if s["k"] == "assign" and s["rv"]["k"] == "use" and s["rv"]["op"].get("k") in ("copy", "move") and s["rv"]["op"]["place"]["l"] in ls \
+                        and not s["rv"]["op"]["place"]["p"] and not s["place"]["p"] and s["place"]["l"] not in ls:
+                    ls.add(s["place"]["l"])
+                    grown = True
         uses = []
         for bi, si, s in prog.stmts(g):
             if s["k"] == "assign":
+                if s["rv"]["k"] == "use" and not s["place"]["p"] and s["place"]["l"] in ls:
+                    continue
                 for o in rules._rv_operands(s["rv"]):
                     if o.get("k") in ("copy", "move") and o["place"]["l"] in ls and not o["place"]["p"]:
                         uses.append((s["rv"]["k"], s["rv"].get("op")))
@@ -59,8 +71,9 @@ def main(tier):
             ops = t.get("args", []) + t.get("ops", []) + ([t["discr"]] if t["k"] == "switch" else [])
             for o in ops:
                 if o.get("k") in ("copy", "move") and o["place"]["l"] in ls and not o["place"]["p"]:
-                    uses.append((t["k"], t.get("msg")))
-        ok = all(u in (("binop", "SubWithOverflow"), ("binop", "Sub"), ("assert", "Overflow(Sub)")) for u in uses) and len(ls) == 2
+                    uses.append((t["k"], rules.callee_name(t["callee"]) if t["k"] == "call" else t.get("msg")))
+        SUBS = ("core::num::<impl usize>::checked_sub", "core::num::<impl usize>::wrapping_sub", "core::num::<impl usize>::saturating_sub", "core::num::<impl usize>::overflowing_sub")
+        ok = all(u in (("binop", "SubWithOverflow"), ("binop", "Sub"), ("assert", "Overflow(Sub)")) or (u[0] == "call" and u[1] in SUBS) for u in uses) and ncast == 2
         run.ob("pure", "the two addresses in %s flow only into their difference" % gk.rsplit("::", 1)[-1], ok, key="pure|an address in get_node_id is used other than in `p - start`", detail=uses, nontrivial="addr-use")
     # ---- plain values
     for tp in TYPES:
@@ -101,8 +114,10 @@ def main(tier):
             run.ob("capacity", "capacity/%s only reads" % prof, r["exit"] == "return" and not r["events"] and not r["arena_writes"], key="capacity|capacity() writes", detail=r)
     callers = sorted({k for (k, bi, t) in idx.callers.get("alloc::vec::Vec::<T, A>::capacity", [])
                       if any(prog.tys(a).startswith("crate::node::Node<") for a in t["callee"].get("args", []) if isinstance(a, int))})
-    run.ob("capacity", "Vec::capacity of the slot vector is read only in Arena::capacity: %s" % callers, callers == ["crate::arena::Arena<T>::capacity"],
-           key="capacity|capacity observed in %s" % ",".join(c for c in callers if not c.endswith("::capacity")), detail=callers, nontrivial="capread", sample=True)
+    CAPFN = "crate::arena::Arena<T>::capacity"
+    strayc = [c for c in callers if not idx.gated(c, {CAPFN})]
+    run.ob("capacity", "Vec::capacity of the slot vector is read only in Arena::capacity (or helpers reachable only through it): %s" % callers, bool(callers) and not strayc,
+           key="capacity|capacity observed in %s" % ",".join(strayc), detail=callers, nontrivial="capread", sample=True)
     # with_capacity(n) / reserve(k) are the Vec call on the slot vector with the caller's argument (decided on the E2 records: whatever private helper the call goes
     # through, exactly one capacity request reaches the vector and it carries the symbolic argument unchanged)
     for (prof, entry), recs in sorted(data.items()):
